@@ -397,6 +397,10 @@ def check(ctx, rep):
     rule_rule_keyed(ctx, rep)
     rule_fold_sees_updated(ctx, rep)
     rule_no_work_budget(ctx, rep)
+    from .c18 import rule_lost_update
+
+    # an inner fix reverted by the enclosing hook is made by the *next* run: the first run is not a fixed point (all libcst codemods)
+    rule_lost_update(ctx, rep, all_codemods=True)
     rep.not_covered += [
         "fixed point for arbitrary programs and for codemods without a rule of their own (beyond the table rule)",
         "codemods listed as not-modelled: " + ", ".join(sorted(NOT_MODELLED)),
